@@ -30,6 +30,32 @@ def self_field(t, name):
     return t[0] == "field" and t[3] == name and look(t[1]) == ("arg", 1)
 
 
+def field_chain(t):
+    """`self.a.b` -> [(adt_of_self, "a"), (adt_of_a, "b")]; None if t is not a field path of the first argument."""
+    t = look(t)
+    chain = []
+    while t[0] == "field":
+        chain.append((t[2], t[3]))
+        t = look(t[1])
+    if t != ("arg", 1) or not chain:
+        return None
+    return list(reversed(chain))
+
+
+def resolve_in_ctor(facts, agg, chain):
+    """The value the constructor's literal `agg` gives to the field path `chain`."""
+    v = agg
+    for adt, fld in chain:
+        v = look(v)
+        if v[0] != "agg" or v[1] != adt:
+            return None
+        names = [f["name"] for f in facts.struct_fields(adt)]
+        if fld not in names:
+            return None
+        v = v[3][names.index(fld)]
+    return look(v)
+
+
 def skeleton(pieces):
     out = []
     for p in pieces:
@@ -142,6 +168,12 @@ def dispatch(ctx):
     facts = ctx.facts
     fh, leaves = _lv(ctx, "router::HttpRoutes::<T>::handle_http_request")
     seen = set()
+    fnew, lnew = _lv(ctx, "router::HttpRoutes::<T>::new")
+    ctor = [look(l.ret()) for l in lnew]
+    if not ctor or any(not (a_[0] == "agg" and a_[1] == ROUTES) for a_ in ctor):
+        ctx.fail("R17.4", "new|not-a-literal", "HttpRoutes::new does not return a literal", fnew.loc(0))
+        ctor = []
+    used_chains = set()
     for lf in leaves:
         some = None
         got = None
@@ -173,8 +205,21 @@ def dispatch(ctx):
         resp_src = [e for e in lf.events if e[0] == "call" and (last_seg(e[3]) == "handle_request" or e[3] == "response::Response::new")]
         ss = [e for e in lf.events if e[0] == "call" and e[3] == "response::Response::set_server"]
         sc = [e for e in lf.events if e[0] == "call" and e[3] == "response::Response::set_content_type"]
-        ok_s = len(ss) >= 1 and self_field(ss[-1][4][2][1], "server_id")
-        ok_c = len(sc) >= 1 and self_field(sc[-1][4][2][1], "media_type")
+        # what is stamped: resolved through the value HttpRoutes::new builds (the fields may live in a private sub-struct)
+        ok_s = ok_c = False
+        if ss:
+            ch = field_chain(ss[-1][4][2][1])
+            ok_s = ch is not None and bool(ctor) and all(resolve_in_ctor(facts, a_, ch) == ("arg", 1) for a_ in ctor)
+            used_chains.update(tuple(ch[:i + 1]) for i in range(len(ch))) if ch else None
+        if sc:
+            v_ = look(sc[-1][4][2][1])
+            ch = field_chain(v_)
+            if ch is not None:
+                vals = [resolve_in_ctor(facts, a_, ch) for a_ in ctor]
+                ok_c = bool(vals) and all(x is not None and x[0] == "agg" and x[2] == "ApplicationJson" for x in vals)
+                used_chains.update(tuple(ch[:i + 1]) for i in range(len(ch)))
+            else:
+                ok_c = v_[0] == "agg" and v_[2] == "ApplicationJson"
         ret = look(lf.ret())
         while ret[0] == "mut":
             ret = look(ret[1])
@@ -189,20 +234,17 @@ def dispatch(ctx):
         ctx.ob("R17.4", "stamp|content-type|%s" % some, ok_c and tgt_ok, "set_content_type(self.media_type) applied to the response on this path", fh.loc(lf.bb))
         ctx.ob("R17.4", "stamp|returned|%s" % some, same, "the stamped response is the value returned", fh.loc(lf.bb))
     ctx.ob("R17.3", "covered", seen == {True, False}, "both lookup outcomes have a path")
-    # media_type is only ever ApplicationJson
-    fnew = facts.fn("router::HttpRoutes::<T>::new")
-    ctx.touched(fnew)
+    # the fields read for the stamp (and the prefix) are written by the constructor only
     names = [f["name"] for f in facts.struct_fields(ROUTES)]
-    for lf in PathEnum(fnew, facts).run():
-        r = lf.ret()
-        ok = r[0] == "agg" and r[1] == ROUTES
-        if ok:
-            mt = r[3][names.index("media_type")]
-            ok = mt[0] == "agg" and mt[2] == "ApplicationJson" and r[3][names.index("server_id")] == ("arg", 1) and r[3][names.index("prefix")] == ("arg", 2)
-        ctx.ob("R17.4", "new|fields", ok, "HttpRoutes::new stores server_id, prefix as given and media_type = ApplicationJson", fnew.loc(0))
-    for fld in ("media_type", "server_id", "prefix"):
-        for w in field_writers(facts, ROUTES, fld):
-            ctx.ob("R17.4", "writers|%s|%s" % (fld, w[0]), writer_roots(facts, w[0]) == {"router::HttpRoutes::<T>::new"}, "writer of HttpRoutes.%s: %s (%s)" % (fld, w[0], w[3]), w[2])
+    for a_ in ctor:
+        ok = "prefix" not in names or a_[3][names.index("prefix")] == ("arg", 2)
+        ctx.ob("R17.4", "new|fields", ok, "HttpRoutes::new stores the prefix as given (the stamped server id / media type are resolved through its literal above)", fnew.loc(0))
+    chains = set(used_chains) | ({((ROUTES, "prefix"),)} if "prefix" in names else set())
+    for ch in sorted(chains):
+        adt, fld = ch[-1]
+        for w in field_writers(facts, adt, fld):
+            ctx.ob("R17.4", "writers|%s|%s" % (fld, w[0]), writer_roots(facts, w[0]) == {"router::HttpRoutes::<T>::new"}, "writer of %s.%s: %s (%s)" % (adt.split("::")[-1], fld, w[0], w[3]), w[2])
+    ctx.ob("R17.4", "writers|floor", len(chains) >= 2, "%d field(s) behind the stamp / prefix checked for writers (floor 2)" % len(chains))
     # set_server / set_content_type really store what they are given
     for name, hname, field in (("response::Response::set_server", "response::ResponseHeaders::set_server", "server"), ("response::Response::set_content_type", "response::ResponseHeaders::set_content_type", "content_type")):
         f1, f2 = facts.fn(name), facts.fn(hname)
